@@ -319,6 +319,7 @@ class World:
         return naive.astimezone().astimezone(dt.timezone(off))       # naive is read as local time
 
     def run(self, output, fresh, workers=None, scheduler=None, max_errors=0, dry_run=False, fault_at=None, transform=None, fault_hard=False, _hard=False):
+        core.alive()
         self.log = []
         self.opcount = 0
         self.fault_at = fault_at
@@ -769,6 +770,11 @@ def cut_and_repair(ctx, camp, w, output, desc):
                  "a run in which operation %d raised a %s returned normally; output %r, stored values of nodes %r differ from a run from scratch"
                  % (k, "BaseException subclass" if hard else "Exception", res[1], wrong),
                  {"meta": w.meta, "sigma_before": sigma0, "cut_at": k, "of": total, "log": cutlog[:200], "desc": desc})
+        if wrong:
+            camp.add("C05", "run-returned-normally-without-rebuilding",
+                     "a run in which operation %d raised a %s returned normally although the out-of-date stored values of nodes %r were not rebuilt "
+                     "(they still differ from a run from scratch); a repeated run would do work" % (k, "BaseException subclass" if hard else "Exception", wrong),
+                     {"meta": w.meta, "sigma_before": sigma0, "cut_at": k, "of": total, "log": cutlog[:200], "desc": desc})
         camp.add("C08", "cut-run-reports-success", "the run was cut at operation %d by a raised %s but uberjob.run returned normally"
                  % (k, "BaseException subclass" if hard else "Exception"),
                  {"meta": w.meta, "sigma_before": sigma0, "cut_at": k, "of": total, "log": cutlog[:200], "desc": desc})
